@@ -1504,8 +1504,13 @@ func (fc *funcContext) formatExprInternal(format string, a []any, parens bool) *
 		case 'f':
 			e := a[n].(ast.Expr)
 			if val := fc.pkgCtx.Types[e].Value; val != nil {
-				d, _ := constant.Int64Val(constant.ToInt(val))
-				out.WriteString(strconv.FormatInt(d, 10))
+				if d, exact := constant.Int64Val(constant.ToInt(val)); exact {
+					out.WriteString(strconv.FormatInt(d, 10))
+				} else {
+					// uint64 constants above MaxInt64
+					u, _ := constant.Uint64Val(constant.ToInt(val))
+					out.WriteString(strconv.FormatUint(u, 10))
+				}
 				return
 			}
 			if is64Bit(fc.typeOf(e).Underlying().(*types.Basic)) {
